@@ -12,6 +12,27 @@ CLAIMS = {
     note=TRUST + "Sequential consistency only (weak-memory behaviours of the declared orderings are outside the claim); "
          "schedules needing more CAS retries than the bound are outside the claim.",
     design="5/C15"),
+ "C14": dict(
+    text="Bounded model checking of the real entry points (execute, parallel_execute, fallback_sequential, run_once and their closures, "
+         "MIR -> C): 2-3 racing callers and 3 successive calls, every choice of entry point; the two block bodies are counting ghosts. "
+         "Decides: exactly one body runs, every other call returns the only-once error with the documented txid, nothing else is touched.",
+    note=TRUST + "The bodies parallel_execute_inner / replay_uncommitted_suffix are stubs (they are the only code that touches outcomes/state); SC atomics.",
+    design="5/C14"),
+ "C16": dict(
+    text="One inductive step with concurrency inside, on the real TxDependency code (next/add/remove/commit/key_tx, MIR -> C): from an "
+         "arbitrary state satisfying a stated representation invariant, every pair (thorough: triples) of scheduler roles runs "
+         "concurrently under all interleavings and must re-establish the invariant (live reverse edge, blocker live, cursor reaches every "
+         "claimable tx, no stale release, barrier only below the committed prefix, lock order); a sequential harness shows invariant => "
+         "every transaction completes (no orphan). n=3 (thorough n=4).",
+    note=TRUST + "The per-transaction status/lock of scheduler.rs is a ghost in these kernels (the composition with the real status "
+         "machine is decided in C02/C05). Blocked lock acquisition is an assume; lock-order assertions stand in for deadlock freedom.",
+    design="5/C16"),
+ "C17": dict(
+    text="Bounded model checking of the real WaitSlot (register/notify/wait_while, MIR -> C) with a parker that has NO timeout: a lost "
+         "wake-up is a reachable assertion failure. Waiter loop vs publishing notifier, stale notifier (incl. before registration), two "
+         "publications, and the real commit-loop predicate with the real cancel() and finality notification. All interleavings, <=3 wait rounds.",
+    note=TRUST + "std parker modelled as one token per thread (unpark-before-park makes park return); OnceLock set/get atomic; SC.",
+    design="5/C17"),
 }
 NA = {}
 props = [json.loads(l) for l in open(os.path.join(V, "properties.jsonl"))]
